@@ -876,7 +876,16 @@ def run_dwdescr(idx, rng, sh):
 # ---------------------------------------------------------------- generated files (envelope generators)
 def gen_families():
     from ..gen import dynobj
-    return [('versions', ['-V', '-s', '-d', '-e'], dynobj.gen_versions), ('notes', ['-n'], dynobj.gen_notes_file)]
+    import elftools.elf.enums as E
+
+    def relocs(rng):
+        tabs = {m: sorted({v for v in getattr(E, spec[3]).values() if isinstance(v, int) and (v < 256 or spec[0] == 64)})
+                for m, spec in dynobj.RELOC_MACH.items()}
+        return dynobj.gen_reloc_file(rng, tabs)
+    return [('versions', ['-V', '-s', '-d', '-e'], dynobj.gen_versions), ('notes', ['-n'], dynobj.gen_notes_file),
+            ('symtab', ['-s', '-e'], dynobj.gen_symtab_file), ('relocs', ['-r'], relocs),
+            ('layout', ['-e'], dynobj.gen_layout_file),
+            ('dumps', ['-x.text', '-p.comment', '-x.comment', '-p.text', '-x.empty', '-x.bss', '-p.shstrtab'], dynobj.gen_dump_file)]
 
 
 def mask(line):
@@ -900,6 +909,10 @@ def run_generated(idx, rng, sh):
                 sh.sample({'family': name, 'option': option, 'lines': n[0], 'shape': jsonable_small(desc)}, kind='generated:' + name)
             else:
                 first = msg.splitlines()[1] if res == 'diff' and len(msg.splitlines()) > 1 else msg
+                if res == 'diff' and any(ph in first for ph in ('unrecognized:', '<unknown>:', '<processor specific>', '<os specific>')):
+                    sh.count('pairs_unjudged_gnu_placeholder')
+                    sh.skip('GNU readelf 2.40 has no name for a code in this file')
+                    continue
                 sh.violation('C18:generated %s %s: %s: %s' % (name, option, 'differs at' if res == 'diff' else 'fails', mask(first.strip('<>'))),
                              message=msg[:700], shape=jsonable_small(desc), image_hex=img.hex() if len(img) < 6000 else None)
 
